@@ -56,7 +56,14 @@ func run(t *testing.T, cfg config, seq []act, keepTrace bool) (res result) {
 	br := runBubble(t, func() {
 		w := newWorld(cfg)
 		w.keepTrace = keepTrace
-		defer w.shutdown()
+		defer func() {
+			w.shutdown()
+			if wt := mutexWaiters(); wt != "" {
+				res.viol = append(res.viol, ledger.Violation{Kind: "deadlock", Cause: "a mutex of the connection is never released",
+					Msg: "after the connection was closed and every handler released, goroutines of the endpoint still wait for a mutex nobody will release: " + wt})
+				res.hung = true
+			}
+		}()
 		w.prelude()
 		if len(w.viol) == 0 {
 			for i, a := range seq {
